@@ -48,9 +48,54 @@ def standard_run(ck, P, replay_cases=None):
                 if not batch:
                     continue
                 model = ck.run_model(mcases)
+                nv, nf = len(ck.violations), len(ck.failures)
                 ck.compare(batch, impl, model, proj=getattr(P, "PROJ", None), canon=getattr(P, "CANON", None))
+                retry_flaky(logger, nv, nf)
                 for c, i in list(zip(batch, impl))[:3]:
                     samples.append({"case": c[:400], "impl": i[:400]})
+
+        def retry_flaky(logger, nv, nf):
+            """Flake policy for scripts that contain real waits (DESIGN 2.3): a disagreement of a timed script counts
+            only if it reproduces when the script is re-run alone, twice more; otherwise the script is inconclusive."""
+            timed = getattr(P, "TIMED_OPS", ())
+            if not timed:
+                return
+            new_v, new_f = ck.violations[nv:], ck.failures[nf:]
+            suspects = []
+            for v in new_v:
+                if v["case"].split(" ", 1)[0] in timed:
+                    suspects.append(v["case"])
+            for f in new_f:
+                if f.case and f.case.split(" ", 1)[0] in timed:
+                    suspects.append(f.case)
+            cleared = set()
+            for c in dict.fromkeys(suspects):
+                reproduced = True
+                for _ in range(2):
+                    i1 = ck.run_impl(exe, [c], logger=logger, jobs=1, env_extra=getattr(P, "ENV", None))
+                    if hasattr(P, "model_case"):
+                        mc = P.model_case(c, i1[0])
+                        i1 = [P.impl_view(c, i1[0])]
+                        if mc is None:
+                            continue
+                    else:
+                        mc = c
+                    m1 = ck.run_model([mc])
+                    sv, sf, scov = ck.violations, ck.failures, dict(ck.coverage)
+                    ck.violations, ck.failures = [], []
+                    ck.compare([c], i1, m1, proj=getattr(P, "PROJ", None), canon=getattr(P, "CANON", None))
+                    bad = bool(ck.violations or ck.failures)
+                    ck.violations, ck.failures, ck.coverage = sv, sf, scov
+                    if not bad:
+                        reproduced = False
+                        break
+                if not reproduced:
+                    cleared.add(c)
+                    ck.notes.append("timed script inconclusive (a disagreement did not reproduce when re-run alone): " + c[:200])
+            if cleared:
+                ck.violations[nv:] = [v for v in new_v if v["case"] not in cleared]
+                ck.failures[nf:] = [f for f in new_f if f.case not in cleared]
+                ck.coverage["inconclusive_timed_scripts"] = ck.coverage.get("inconclusive_timed_scripts", 0) + len(cleared)
 
         impl, model = [], []
         run_cases(cases)
